@@ -122,16 +122,17 @@ Strm(check, blocks) ==
 (*-------------------- what the writer is obliged to emit -----------------*)
 (* Given the configuration (blockSize, check, dictCode) and n bytes of     *)
 (* input, the writer emits ceil(n / blockSize) blocks (one empty block for *)
-(* n = 0), no size fields, minimal padding, truthful index and footer.     *)
+(* n = 0), each a valid block, truthful index and footer.                  *)
 NBlocks(n, blockSize) == IF n <= blockSize THEN 1 ELSE ((n - 1) \div blockSize) + 1
 BlockUSize(n, blockSize, i) == IF i < NBlocks(n, blockSize) THEN blockSize
                                ELSE n - (NBlocks(n, blockSize) - 1) * blockSize
 
+(* The shape of the block header is the writer's choice: optional size fields (truthful, as      *)
+(* ValidBlock demands) and extra zero padding are legal, and a declared dictionary larger than   *)
+(* necessary harms neither C01 nor C02 (minimality of the code is C18's statement).              *)
 WriterBlockOk(b, check, dictCode, usize) ==
   /\ ValidBlock(b, check)
-  /\ b.csizeF = -1 /\ b.usizeF = -1
-  /\ b.sizeByte = 2                       \* 12-byte header: 02 00 21 01 dc 00 00 00 crc32
-  /\ b.dictCode = dictCode
+  /\ b.dictCode >= dictCode
   /\ b.usize = usize
 
 WriterStreamOk(s, n, blockSize, check, dictCode) ==
